@@ -114,9 +114,22 @@ func scenario(c *run.Ctx, idx int, fixed bool) {
 			cands = cl.G.Setup(t)
 		case bi == 1:
 			// every second user registers with deposits that create ties
+			// every fifth scenario: about as many registered candidates as the list has slots (deputies included), so that
+			// unregistrations leave fewer candidates than slots
+			few := -1
+			if idx%5 == 4 && !fixed {
+				few = store.VerifMaxCandidateCount() - nDep + r.Range(-1, 1)
+				if few < 1 {
+					few = 1
+				}
+				c.Stat("scenarios_with_about_as_many_candidates_as_slots", 1)
+			}
 			for u := 0; u < len(cl.W.Users); u += 1 {
 				if u%4 == 3 {
 					continue
+				}
+				if few >= 0 && len(cands) >= few {
+					break
 				}
 				k := cl.W.Users[u]
 				dep := fx.LEMO(int64(1000 + 100*(u%3)))
